@@ -81,6 +81,9 @@ fn tag(e: &Ev<Frame>) -> String {
 }
 
 pub struct Obs {
+    /// `events.len()` after every poll that returned Pending without any sink having answered Pending in it (the router
+    /// is waiting for streams or for the registration channel only: nobody's sink holds its waker)
+    pub rest_points: Vec<usize>,
     pub line: String,
     pub annotated: Vec<String>,
     pub panicked: Option<String>,
@@ -110,7 +113,7 @@ pub fn run_scenario(events: &[&str]) -> Obs {
     let waker = wk.clone().into();
     let mut cx = Context::from_waker(&waker);
     let mut segs: Vec<String> = vec![];
-    let mut o = Obs { line: String::new(), annotated: vec![], panicked: None, spun: false, done: false, events: vec![], n_clients: 0, n_servers: 0, last_pending: false, sleeping_for_good: false, last_any_child_pending: false, last_sink_pending: false, polled_after_close: false, closed: false, server_enq_at: vec![], last_poll_start: 0 };
+    let mut o = Obs { rest_points: vec![], line: String::new(), annotated: vec![], panicked: None, spun: false, done: false, events: vec![], n_clients: 0, n_servers: 0, last_pending: false, sleeping_for_good: false, last_any_child_pending: false, last_sink_pending: false, polled_after_close: false, closed: false, server_enq_at: vec![], last_poll_start: 0 };
     let mut first = true;
     for ev in events {
         if o.done || o.panicked.is_some() { o.annotated.push(ev.split('@').next().unwrap().to_string()); continue; }
@@ -159,6 +162,7 @@ pub fn run_scenario(events: &[&str]) -> Obs {
             let shown: Vec<String> = evs.iter().take(if o.spun { 40 } else { usize::MAX }).map(tag).collect();
             segs.push(format!("poll:{}->{r}[w:{}]", shown.join(","), holders.join(",")));
             o.events.extend(evs);
+            if r == "P" && !o.last_sink_pending { o.rest_points.push(o.events.len()); }
         } else {
             panic!("bad reqrep event {ev}");
         }
@@ -388,6 +392,30 @@ pub fn monitor(o: &Obs) -> Result<(), String> {
             if *n > 0 && !gone.get(i).copied().unwrap_or(false) && !failed.get(i).copied().unwrap_or(false) {
                 let who = if *i >= V { format!("replier v{}", *i - V) } else { format!("requestor k{i}") };
                 return Err(format!("C09: the router sleeps (no waker will fire) with {n} frame(s) handed to the sink of {who} and never flushed"));
+            }
+        }
+    }
+    // C09 (c09_reqrep_no_unflushed_work / c09_reqrep_idle_means_flushed), at every poll and not only at the end of the
+    // scenario: whenever the router returns Pending without being blocked on a sink, nothing handed to a healthy requestor's
+    // sink or to the bound replier's sink is left unflushed — no sink holds the waker, so nothing would ever flush it
+    for end in &o.rest_points {
+        let mut unflushed: BTreeMap<usize, usize> = BTreeMap::new();
+        let mut gone: BTreeMap<usize, bool> = BTreeMap::new();
+        let mut bad: BTreeMap<usize, bool> = BTreeMap::new();
+        for e in &o.events[..*end] {
+            match e {
+                Ev::SinkSend(i, _, true) => { *unflushed.entry(*i).or_insert(0) += 1; }
+                Ev::SinkSend(i, _, false) => { bad.insert(*i, true); }
+                Ev::SinkFlush(i, A::Ready) | Ev::SinkClose(i, A::Ready) => { unflushed.insert(*i, 0); }
+                Ev::SinkReady(i, A::Err) | Ev::SinkFlush(i, A::Err) | Ev::SinkClose(i, A::Err) => { bad.insert(*i, true); }
+                Ev::Dropped(_, i) => { gone.insert(*i, true); }
+                _ => {}
+            }
+        }
+        for (i, n) in &unflushed {
+            if *n > 0 && !gone.get(i).copied().unwrap_or(false) && !bad.get(i).copied().unwrap_or(false) {
+                let who = if *i >= V { format!("replier v{}", *i - V) } else { format!("requestor k{i}") };
+                return Err(format!("C02/C09: the router returned Pending, blocked on no sink, with {n} frame(s) handed to the sink of {who} and not flushed (that sink holds no waker: a wake-driven executor never gets them flushed)"));
             }
         }
     }
